@@ -588,6 +588,15 @@ impl ZmtpEngine {
         .get("Identity")
         .map(|v| Blob::from(v.clone()));
 
+      // Same compatibility verdict as over ZMTP/2.0 and inproc: a peer whose announced
+      // Socket-Type is a known type that does not pair with ours is refused.
+      if let Some(code) = peer_socket_type.as_deref().and_then(socket_type_code) {
+        if let Err(e) = self.validate_v2_compatibility(code) {
+          self.fail(out, e);
+          return;
+        }
+      }
+
       if self.is_server {
         // Server received client READY → send server READY then complete.
         self.emit_local_ready(out);
